@@ -258,6 +258,47 @@ def build(tier):
                 obs4.append(Ob(f'Weyl_Psi{n_} real', p.re, re, [], group='Weyl_Psi == contractions with the null tetrad'))
                 obs4.append(Ob(f'Weyl_Psi{n_} imag', p.im, im, [], group='Weyl_Psi == contractions with the null tetrad'))
         blocks.append(dict(name='Weyl_Psi-cut', obs=obs4, ctx=c4, pre=[], run=None, sampler=None))
+
+        # ---- (c') electric / magnetic parts in the fluid frame: contractions of a free Weyl-symmetric tensor with u ----
+        M5 = metric_point()
+        rel5 = AurelCore(fd, verbose=False)
+        Cw = riemann_symmetric_free('c')
+        W5, v5 = sym('W'), [sym(f'v{i}') for i in range(3)]
+        g3_5 = E(M5['ga'])
+        v2_5 = sum(g3_5[i, j] * v5[i] * v5[j] for i in range(3) for j in range(3))
+        pre5 = M5['pre'] + [tm.lt(tm.ZERO, W5.t), tm.eq((W5 * W5 * (1 - v2_5)).t, tm.ONE)]
+        rel5.data.update(alpha=M5['al'], betaup3=M5['be'], gammadown3=M5['ga'], w_lorentz=gr.grid(W5), velx=gr.grid(v5[0]),
+                         vely=gr.grid(v5[1]), velz=gr.grid(v5[2]))
+        rel5.data['st_Weyl_down4'] = gr.grid(Cw)
+        rel5.freeze_data()
+        c5 = Ctx(pre=pre5, fork=False)
+        obs5 = []
+        with use_ctx(c5):
+            al5 = M5['al'][0, 0, 0]
+            be5 = E(M5['be'])
+            u = [W5 / al5] + [W5 * (v5[i] - be5[i] / al5) for i in range(3)]
+            Eu = E(rel5['eweyl_u_down4'])
+            Bu = E(rel5['bweyl_u_down4'])
+            gi4 = M5['gi4']
+            sg5 = oracle.det(g3_5).sqrt()
+            eps4 = oracle.arr((4, 4, 4, 4))
+            for p_ in itertools.product(range(4), repeat=4):
+                eps4[p_] = oracle.perm_sign(p_) * al5 * sg5 if len(set(p_)) == 4 else 0
+            eps_uudd = np.einsum('ac,bd,abef->cdef', gi4, gi4, eps4)
+            for a in range(4):
+                for c_ in range(a, 4):
+                    want = sum(Cw[a, b, c_, d] * u[b] * u[d] for b in range(4) for d in range(4))
+                    obs5.append(Ob(f'eweyl_u_down4[{a},{c_}]', Eu[a, c_], want, pre5, group='eweyl_u_down4 == C_abcd u^b u^d (free Weyl-symmetric C)'))
+                    wb = 0
+                    for b, c2, d, f in itertools.product(range(4), repeat=4):
+                        e_ = eps_uudd[c2, d, c_, f]
+                        if isinstance(e_, int) and e_ == 0:
+                            continue
+                        wb = wb + u[b] * u[f] * Cw[a, b, c2, d] * e_
+                    obs5.append(Ob(f'bweyl_u_down4[{a},{c_}]', Bu[a, c_], wb * 0.5, pre5,
+                                   group='bweyl_u_down4 == 1/2 u^b u^f C_abcd eps^cd_ef (free Weyl-symmetric C)'))
+        blocks.append(dict(name='EB-fluid-frame', obs=obs5, ctx=c5, pre=pre5, run=None,
+                           sampler=point_sampler(names_of(Cw) + ['v0', 'v1', 'v2', 'W'])))
     return blocks
 
 
